@@ -1158,7 +1158,20 @@ class Guards:
             vals = [v for v, b in t.targets if b == s]
             is_other = (t.otherwise == s)
             r = []
-            if e[0] == 'discr':
+            if e[0] == 'discr' and e[1][0] == 'call' and str(e[1][1]).endswith('impls::cmp') and len(e[1][2]) == 2:
+                # `match a.cmp(&b) { Less => .., Equal => .., Greater => .. }` on primitive integers (core::cmp::impls): the three outcomes are the three
+                # comparisons, so the guard is the same normal form as `if a < b {..} else if a > b {..} else {..}`
+                a_, b_ = e[1][2]
+                rel = {-1: 'Lt', 0: 'Eq', 1: 'Gt'}
+                for v in vals:
+                    if v in rel:
+                        r.append([cmp_atom(rel[v], a_, b_, True)])
+                if is_other:
+                    listed = [v for v, b in t.targets]
+                    for v in (-1, 0, 1):
+                        if v not in listed:
+                            r.append([cmp_atom(rel[v], a_, b_, True)])
+            elif e[0] == 'discr':
                 names = self.variant_names(e[2])
                 x = e[1]
                 for v in vals:
